@@ -31,16 +31,20 @@ def blinded_class(base):
 
 
 BlindGen = blinded_class(Generator)
+_BCLS = {}     # base class -> blinded subclass
+_BGEN = {}     # (base class, curve parameters, blinding factor, entropy lift) -> generator (construction costs a table of doublings)
 
 
 def entropy_for(b, n, lift=0):
-    """32 bytes whose big-endian value is congruent to b mod n (lift 0: b itself; 1: b + n; 2: the largest below 2^256)"""
+    """bytes whose big-endian value is congruent to b mod n (lift 0: b mod n itself; 1: + n; 2: the largest below 2^256).
+    At least 32 bytes; more when the value needs them (orders wider than 256 bits): Generator takes int.from_bytes of
+    whatever entropy_f returns."""
     v = b % n
     if lift == 1 and v + n < (1 << 256):
         v += n
-    elif lift == 2:
+    elif lift == 2 and v < (1 << 256) and n < (1 << 256):
         v += ((1 << 256) - 1 - v) // n * n
-    raw = v.to_bytes(32, "big")
+    raw = v.to_bytes(max(32, (v.bit_length() + 7) // 8), "big")
     return lambda size: raw
 
 
@@ -98,7 +102,9 @@ class RegMachine:
     def __init__(self, gen, nregs, B1, B2):
         self.gen = gen
         self.bgen = gen            # generator carrying the current blinding factor
-        self.cls = blinded_class(type(gen))
+        if type(gen) not in _BCLS:
+            _BCLS[type(gen)] = blinded_class(type(gen))
+        self.cls = _BCLS[type(gen)]
         self.params = (gen.p(), gen._a, gen._b, (gen[0], gen[1]), gen.order())
         self.n = gen.order()
         self.p = gen.p()
@@ -119,7 +125,12 @@ class RegMachine:
             try:
                 b = poly_eval(a["f"], self.B1, self.B2)
                 p, aa, bb, G, n = self.params
-                self.bgen = self.cls(p, aa, bb, G, n, entropy_f=entropy_for(b, n, 1 if self.flip else 0))
+                key = (self.cls, self.params, b % n, 1 if self.flip else 0)
+                if key not in _BGEN:
+                    if len(_BGEN) > 64:
+                        _BGEN.clear()
+                    _BGEN[key] = self.cls(p, aa, bb, G, n, entropy_f=entropy_for(b, n, key[3]))
+                self.bgen = _BGEN[key]
                 return ["blind", self.bgen._blinding_factor == b % n]
             except Exception as e:
                 return "exc:" + type(e).__name__
@@ -183,6 +194,34 @@ def run_behaviours(gen, behs, nregs, B1, B2, expected=None):
 
 # ----------------------------------------------------------------------------- production curves (subprocess)
 
+def _h(s):
+    return int(s.replace(" ", ""), 16)
+
+
+# SEC 2 parameters of curves pycoin does not ship: "user-constructed" curves whose order is wider than 256 bits
+# (both primes are 3 mod 4).  props/c02.py checks them (G on the curve, n*G = infinity, n prime) before use.
+_P384 = 2 ** 384 - 2 ** 128 - 2 ** 96 + 2 ** 32 - 1
+_P521 = 2 ** 521 - 1
+WIDE_CURVES = {
+    "secp384r1": (
+        _P384, _P384 - 3,
+        _h("B3312FA7 E23EE7E4 988E056B E3F82D19 181D9C6E FE814112 0314088F 5013875A C656398D 8A2ED19D 2A85C8ED D3EC2AEF"),
+        (_h("AA87CA22 BE8B0537 8EB1C71E F320AD74 6E1D3B62 8BA79B98 59F741E0 82542A38 5502F25D BF55296C 3A545E38 72760AB7"),
+         _h("3617DE4A 96262C6F 5D9E98BF 9292DC29 F8F41DBD 289A147C E9DA3113 B5F0B8C0 0A60B1CE 1D7E819D 7A431D7C 90EA0E5F")),
+        _h("FFFFFFFF FFFFFFFF FFFFFFFF FFFFFFFF FFFFFFFF FFFFFFFF C7634D81 F4372DDF 581A0DB2 48B0A77A ECEC196A CCC52973")),
+    "secp521r1": (
+        _P521, _P521 - 3,
+        _h("0051 953EB961 8E1C9A1F 929A21A0 B68540EE A2DA725B 99B315F3 B8B48991 8EF109E1 56193951 EC7E937B 1652C0BD"
+           "3BB1BF07 3573DF88 3D2C34F1 EF451FD4 6B503F00"),
+        (_h("00C6 858E06B7 0404E9CD 9E3ECB66 2395B442 9C648139 053FB521 F828AF60 6B4D3DBA A14B5E77 EFE75928 FE1DC127"
+            "A2FFA8DE 3348B3C1 856A429B F97E7E31 C2E5BD66"),
+         _h("0118 39296A78 9A3BC004 5C8A5FB4 2C7D1BD9 98F54449 579B4468 17AFBD17 273E662C 97EE7299 5EF42640 C550B901"
+            "3FAD0761 353C7086 A272C240 88BE9476 9FD16650")),
+        _h("01FF FFFFFFFF FFFFFFFF FFFFFFFF FFFFFFFF FFFFFFFF FFFFFFFF FFFFFFFF FFFFFFFA 51868783 BF2F966B 7FCC0148"
+           "F709A5D0 3BB5C9B8 899C47AE BB6FB71E 91386409")),
+}
+
+
 def production_generator(name):
     if name == "secp256k1":
         from pycoin.ecdsa.secp256k1 import secp256k1_generator as g
@@ -190,6 +229,9 @@ def production_generator(name):
         from pycoin.ecdsa.secp256r1 import secp256r1_generator as g
     elif name == "bls12_381_g1":
         from pycoin.ecdsa.bls12_381_g1 import bls12_381_g1 as g
+    elif name in WIDE_CURVES:
+        p, a, b, G, n = WIDE_CURVES[name]
+        g = Generator(p, a, b, G, n)          # pycoin's generic pure-Python Generator, as a user would build it
     else:
         raise ValueError(name)
     return g
